@@ -61,12 +61,18 @@ CHECKS["C05"] = dict(
     note="static/virtual sources: no upstream events; covered by correspondence of their pointer checks only.",
     technique="Lean 4 proof (ledger invariant by induction over histories) + correspondence")
 CHECKS["C12"] = dict(
-    text="Lean theorems: move of memory_stack/arena/iteration_allocator/ordered list hands over the complete state, the moved-from state is "
-         "empty and its destruction is inert (no upstream event, no leak report) in every configuration; moved-to ordered list has a valid "
-         "cursor. Tied by correspondence with moves at seeded positions (object placed below/above its memory), destruction of the moved-from "
-         "object with assertions on, and continued use of the new owner.",
-    note="partial: the pointer re-linking itself is validated by state dumps (sampling), swap/move-assign of pools not exercised.",
-    technique="Lean 4 proof + correspondence")
+    text="Lean theorems: (1) moving a memory_pool over any of the three list types into an object outside its blocks keeps the complete "
+         "C01 invariant WITH THE SAME LEDGER - every pointer handed out before the move is a live allocation of the new owner (disjoint, "
+         "inside its blocks, releasable), nothing is lost (conservation), the re-based ordered list has a valid cursor, the re-based small "
+         "list a valid ring; moves compose (three-move swap); the moved-from pool holds no block/node/leak count and its destruction is "
+         "inert. (2) move of memory_stack/arena/iteration_allocator/ordered list hands over the complete state, the moved-from state is "
+         "empty and its destruction is inert (no upstream event, no leak report) in every configuration. Tied by correspondence with moves, "
+         "move assignments and three-move swaps at seeded positions (object placed below/above its memory), destruction of the moved-from "
+         "object with assertions on, and continued use of the new owner; the driver executes the same `Pool.moveInto` the theorems are about.",
+    note="partial: the pointer re-linking itself (xor links, chunk ring pointers) is validated by state dumps (sampling); collections' moves "
+         "at correspondence level.",
+    technique="Lean 4 proof (invariant transport across moves) + correspondence")
+
 CHECKS["C15"] = dict(
     text="Lean theorems over the pool model: each traits operation changes the counter by exactly the traits-level size iff it succeeded "
          "(never with leak checking off); after any history the counter is the initial value plus the signed sum (induction); destruction "
